@@ -894,7 +894,7 @@ LABEL:
 			panic(syntaxError(tok.pos, "unexpected else"))
 		}
 		p.removeLastAncestor()
-		if _, ok := p.parent().(*ast.If); !ok {
+		if n, ok := p.parent().(*ast.If); !ok || n.Else != nil {
 			panic(syntaxError(tok.pos, "unexpected else at end of statement"))
 		}
 		p.cutSpacesToken = true
